@@ -1,0 +1,31 @@
+//go:build verif
+// +build verif
+
+package astisub
+
+// Verification hooks for the SSA codec (build tag "verif"): thin exported forwarders over
+// unexported functions. Nothing here is compiled without the tag and nothing changes behaviour.
+
+// VerifSSAStyleFromString runs newSSAStyleFromString with the Format columns given in order
+func VerifSSAStyleFromString(content string, format []string) (*Style, error) {
+	m := make(map[int]string)
+	for idx, f := range format {
+		m[idx] = f
+	}
+	s, err := newSSAStyleFromString(content, m)
+	if err != nil {
+		return nil, err
+	}
+	return s.style(), nil
+}
+
+// VerifSSAEventLines returns the lines ssaEvent.item builds for an event text
+func VerifSSAEventLines(text string) ([]Line, error) {
+	i, err := (&ssaEvent{text: text}).item(map[string]*Style{})
+	if err != nil {
+		return nil, err
+	}
+	return i.Lines, nil
+}
+
+func VerifSSAColor(i string) (*Color, error) { return newColorFromSSAColor(i) }
